@@ -1,3 +1,13 @@
+#![feature(sized_hierarchy)]
+#![feature(allocator_api)]
+#![allow(unused_imports, unused_variables, dead_code, unused_mut, unused_parens, unused_braces, non_snake_case)]
+use vstd::prelude::*;
+use vstd::std_specs::ops::*;
+use vstd::std_specs::cmp::*;
+use vstd::float::*;
+use vstd::std_specs::iter::IteratorSpec;
+verus! {
+// ---- prelude fragment: floats.rs ----
 // Floating point, layer 1 ("uninterpreted" mode of DESIGN.md 3.2): every f64 operator instance the
 // language can produce is linked to ONE total, deterministic, otherwise unknown function of the
 // operand values.  Nothing about IEEE-754 is assumed here.
@@ -100,14 +110,63 @@ pub assume_specification [f64::is_finite] (a: f64) -> (r: bool) ensures r == fis
 pub assume_specification [f64::powf] (a: f64, b: f64) -> (r: f64) ensures r == fpowf(a, b);
 pub assume_specification [f64::total_cmp] (a: &f64, b: &f64) -> (r: core::cmp::Ordering) ensures r == ftotalcmp(*a, *b);
 
-// R9: associated constants this Verus rejects; the wrappers' bodies ARE the constants.
-pub uninterp spec fn finf() -> f64;
-pub uninterp spec fn fneginf() -> f64;
 #[verifier::external_body]
-pub fn __inf() -> (r: f64) ensures r == finf() { f64::INFINITY }
-#[verifier::external_body]
-pub fn __neg_inf() -> (r: f64) ensures r == fneginf() { f64::NEG_INFINITY }
-pub assume_specification [core::cmp::Ordering::is_lt] (o: core::cmp::Ordering) -> (r: bool) ensures r == (o == core::cmp::Ordering::Less);
-pub assume_specification [core::cmp::Ordering::is_le] (o: core::cmp::Ordering) -> (r: bool) ensures r == (o != core::cmp::Ordering::Greater);
-pub assume_specification [core::cmp::Ordering::is_gt] (o: core::cmp::Ordering) -> (r: bool) ensures r == (o == core::cmp::Ordering::Greater);
-pub assume_specification [core::cmp::Ordering::is_ge] (o: core::cmp::Ordering) -> (r: bool) ensures r == (o != core::cmp::Ordering::Less);
+pub fn __abs_total(strat: &[f64], thresh: f64) -> (r: f64) { unimplemented!() }
+
+// ---- extracted from src/lib.rs: impl Strategies / fn truncate ----
+pub fn truncate__per_infoset(strat: &mut [f64], thresh: f64)
+    ensures
+        final(strat)@.len() == old(strat)@.len(),
+        // with T the block's divisor: either nothing changes (no survivor), or every entry above the
+        // threshold is divided by the ONE common divisor T and every other entry becomes exactly 0.0
+        exists|t: f64| (!fgt(t, 0.0f64) && final(strat)@ == old(strat)@) || (fgt(t, 0.0f64) &&
+            forall|i: int| 0 <= i < old(strat)@.len() ==> #[trigger] final(strat)@[i] ==
+                (if fgt(old(strat)@[i], thresh) { fdiv(old(strat)@[i], t) } else { 0.0f64 })), // @ob C18.V.truncate.rescale
+{
+broadcast use fl;
+proof { ax_obeys(); }
+let ghost s0 = strat@;
+
+                let total: f64 = __abs_total(strat, thresh);
+                // if no action survives the threshold leave the infoset as it is, otherwise it
+                // would become all zeros (or nan) instead of a probability distribution
+                if total > 0.0 {
+                    for p in it: strat.iter_mut() 
+invariant
+    it.snapshot@.remaining().len() == s0.len(),
+    0 <= it.index@ <= s0.len(),
+    forall|i: int| 0 <= i < s0.len() ==> *(#[trigger] it.snapshot@.remaining()[i]) == s0[i],
+    forall|i: int| 0 <= i < it.index@ ==> *final(#[trigger] it.snapshot@.remaining()[i]) ==
+        (if fgt(s0[i], thresh) { fdiv(s0[i], total) } else { 0.0f64 }),
+ensures
+    forall|i: int| 0 <= i < s0.len() ==> *final(#[trigger] it.snapshot@.remaining()[i]) ==
+        (if fgt(s0[i], thresh) { fdiv(s0[i], total) } else { 0.0f64 }),
+{
+broadcast use fl;
+proof { ax_obeys(); }
+
+                        *p = if *p > thresh { *p / total } else { 0.0 }
+                    }
+                }
+            
+proof {
+    let t = total;
+    if fgt(t, 0.0f64) {
+        assert forall|i: int| 0 <= i < s0.len() implies #[trigger] strat@[i] ==
+            (if fgt(s0[i], thresh) { fdiv(s0[i], t) } else { 0.0f64 }) by {}
+    } else {
+        assert(strat@ == s0);
+    }
+}
+}
+
+
+// vacuity canary: must be REJECTED by the verifier (an inconsistent axiom set would accept it)
+pub proof fn __canary_must_fail()
+    ensures false, // @ob __canary
+{
+    broadcast use fl; ax_obeys();
+}
+
+} // verus!
+fn main() {}
